@@ -4,7 +4,7 @@
    run, and the real placements are validated in cases_*.v by the checker
    whose correctness is stated here. *)
 From Coq Require Import QArith List Bool Arith.
-Require Import LT.Layout LT.LayoutPath LT.LayoutPlace LT.LayoutMulti LT.LayoutPrune.
+Require Import LT.Layout LT.LayoutPath LT.LayoutPlace LT.LayoutMulti LT.LayoutPrune LT.LayoutSolve LT.LayoutLineq.
 Import ListNotations.
 Local Open Scope Q_scope.
 
@@ -85,6 +85,29 @@ Theorem C20_prune_sound_stretchy : forall pos a c l b,
   holds pos (mkC a c (fst b) RGe) -> forall e, In e l -> holds pos (mkC a c (fst e) RGe).
 Proof. exact prune_sound_stretchy. Qed.
 
+(* 4c. the solve stage of the graph placer (hand model LayoutSolve.solve of longest_path / assign_longest /
+       assign_fixed / assign_stretchy / path_to_closest_known, tied to the real Graph.solve by in-Coq
+       evaluation on every generated graph) is NOT feasibility preserving: for each of these constraint
+       graphs - built by lcapy for the netlist quoted in LayoutSolve.v - a witness placement satisfies every
+       constraint, and the placement the modelled rules compute violates one.  These are the open findings
+       Graph.assign_stretchy:...:dangling-path / unwalked-neighbour and Graph.assign_fixed:...:rigid-fixed-chain /
+       squeezed-path. *)
+Theorem C20_solve_dangling_refuted :
+  check (cstrs_of_adj ex_dangling_F 4%nat 5%nat) (posof ex_dangling_wit) = true /\
+  check (cstrs_of_adj ex_dangling_F 4%nat 5%nat) (posof (st_pos (solve ex_dangling_F ex_dangling_R ex_dangling_gn 4%nat 5%nat))) = false.
+Proof. exact solve_dangling_refuted. Qed.
+Theorem C20_solve_unwalked_refuted :
+  check (cstrs_of_adj ex_unwalked_F 4%nat 5%nat) (posof ex_unwalked_wit) = true /\
+  check (cstrs_of_adj ex_unwalked_F 4%nat 5%nat) (posof (st_pos (solve ex_unwalked_F ex_unwalked_R ex_unwalked_gn 4%nat 5%nat))) = false.
+Proof. exact solve_unwalked_refuted. Qed.
+
+(* 4d. the constraint table of the lineq placer (model of Lineq.add, tied to the real Lineq.constraints by
+       in-Coq evaluation): a fixed constraint, once in the table, is never replaced by a later one *)
+Theorem C20_lineq_table_keeps_fixed : forall es t x y c,
+  lfind t x y = Some c -> l_st c = false ->
+  lfind (fold_left (fun t g => ladd t (g_from g) (g_to g) (g_size g) (g_stretch g)) es t) x y = Some c.
+Proof. exact lineq_table_keeps_fixed. Qed.
+
 (* 5. the emission loop draws each non-ignored element exactly once *)
 Theorem C20_tikz_once : forall (elt : Type) (name : elt -> nat) (ignored : elt -> bool) elts e,
   NoDup (map name elts) -> In e elts ->
@@ -118,6 +141,11 @@ Print Assumptions C20_scale_all.
 Print Assumptions C20_longest_path_feasible.
 Print Assumptions C20_longest_path_check.
 Print Assumptions C20_tikz_once.
+Print Assumptions C20_lineq_table_keeps_fixed.
+Print Assumptions C20_solve_dangling_refuted.
+Print Assumptions C20_solve_unwalked_refuted.
+Print Assumptions solve_rigid_eq_refuted.
+Print Assumptions solve_squeezed_refuted.
 Print Assumptions C20_prune_keeps_fixed.
 Print Assumptions C20_prune_in.
 Print Assumptions C20_prune_sound_stretchy.
